@@ -241,7 +241,7 @@ func pluginStep(id string) string {
 
 // genFileTree builds trees of workflows referencing each other through foreach steps.
 func genFileTree(rt *rapid.T, pc *ParseCase, _ string) {
-	kind := rapid.SampledFrom([]string{"chain-ok", "missing", "self", "mutual", "nested-dir", "non-string-kind", "non-string-workflow", "absolute-missing", "dotdot", "shared", "empty-sub", "garbage-sub", "key-collision"}).Draw(rt, "treekind")
+	kind := rapid.SampledFrom([]string{"chain-ok", "missing", "self", "mutual", "nested-dir", "non-string-kind", "non-string-workflow", "absolute-missing", "dotdot", "shared", "empty-sub", "garbage-sub", "key-collision", "sub-without-success"}).Draw(rt, "treekind")
 	mainT := func(steps string) string {
 		return strings.Replace(fmt.Sprintf(subTemplate, steps, "done"), "k: {type: {type_id: string}}", "k: {type: {type_id: string}, required: false}", 1)
 	}
@@ -312,6 +312,28 @@ func genFileTree(rt *rapid.T, pc *ParseCase, _ string) {
 		pc.Files["workflow.yaml"] = mainT(loopStep("l", "a.yaml"))
 		pc.Files["a.yaml"] = ""
 		pc.ExpectParse = "error"
+	case "sub-without-success":
+		// a sub-workflow that is fine on its own but has no output named success (renamed, or only
+		// another one left; with the current or the legacy `output:` key)
+		variant := rapid.SampledFrom([]string{"renamed", "only-error", "two-others", "legacy-output"}).Draw(rt, "nosuccess.variant")
+		body := strings.Replace(leaf, "  success:\n", "  done:\n", 1)
+		switch variant {
+		case "only-error":
+			body = strings.Replace(leaf, "  success:\n", "  error:\n", 1)
+		case "two-others":
+			body = strings.Replace(leaf, "  success:\n", "  done:\n    x: y\n  other:\n", 1)
+		case "legacy-output":
+			body = strings.Replace(leaf, "outputs:\n  success:\n", "output:\n", 1)
+		}
+		depth := rapid.IntRange(0, 1).Draw(rt, "nosuccess.depth")
+		pc.Files["workflow.yaml"] = mainT(loopStep("l", "a.yaml"))
+		if depth == 0 {
+			pc.Files["a.yaml"] = body
+		} else {
+			pc.Files["a.yaml"] = fmt.Sprintf(subTemplate, loopStep("l", "b.yaml"), "done")
+			pc.Files["b.yaml"] = body
+		}
+		pc.ExpectParse = "" // a value (legacy key) or an error; it must return without a panic
 	case "garbage-sub":
 		pc.Files["workflow.yaml"] = mainT(loopStep("l", "a.yaml"))
 		pc.Files["a.yaml"] = rapid.StringOfN(rapid.RuneFrom([]rune(c11Alphabet)), 1, 40, -1).Draw(rt, "garbage")
